@@ -8,7 +8,7 @@
 (***************************************************************************)
 EXTENDS Exchange, Bags
 
-CONSTANTS NSess, NMsg, MaxRtx, Nstart, AckMin, AckMax, MaxTime, MaxDup, SubmitUntil, OneDeepMemory
+CONSTANTS NSess, NMsg, MaxRtx, Nstart, AckMin, AckMax, MaxTime, MaxDup, SubmitUntil, OneDeepMemory, MaxPings
 
 VARIABLES st, chan, nsub, decided, dups
 vars == <<st, chan, nsub, decided, dups>>
@@ -45,10 +45,19 @@ Release(s) ==
        st' = ReleaseHeld_do(st, s, h.sig) /\ Emit(Dg("c2p", s, CON, 1, h.mid, h.tok))
   /\ UNCHANGED <<nsub, decided, dups>>
 
+\* keepalive: the library sends an Empty Confirmable message of its own accord (here: whenever a slot is free; libcoap: when the session is idle)
+Ping(s) ==
+  /\ Cardinality(st.pings) < MaxPings /\ st.owed = {} /\ st.now <= SubmitUntil
+  /\ LET mid == 50 + Cardinality(st.pings) IN
+       /\ Ping_ok(st, s, mid) /\ Ping_nstart(st, s)
+       /\ st' = Ping_do(st, s, mid, 0, mid)
+       /\ Emit(Dg("c2p", s, CON, 0, mid, 0))
+  /\ UNCHANGED <<nsub, decided, dups>>
+
 Retransmit(k) ==
   /\ k \in DOMAIN st.fl /\ Retransmit_count(st, k) /\ Retransmit_time(st, k) /\ st.owed = {}
   /\ st' = Retransmit_do(st, k)
-  /\ Emit(Dg("c2p", k[1], CON, 1, k[2], st.fl[k].tok))
+  /\ Emit(Dg("c2p", k[1], CON, IF k \in st.pings THEN 0 ELSE 1, k[2], st.fl[k].tok))
   /\ UNCHANGED <<nsub, decided, dups>>
 
 GiveUp(k) ==
@@ -100,7 +109,8 @@ Styles(ty) == IF ty = CON THEN {"ack", "rst", "pig", "ack+sepcon", "sepcon", "ac
 PeerRx(d, style) ==
   /\ InChan(d) /\ d.dir = "c2p"
   /\ LET key == <<d.s, d.mid>> IN
-     IF d.code = 0 THEN chan' = Take(d) /\ UNCHANGED decided      \* ACK / RST from the client
+     IF d.code = 0 /\ d.ty = CON THEN chan' = Take(d) (+) SetToBag({Dg("p2c", d.s, RST, 0, d.mid, 0)}) /\ UNCHANGED decided   \* a ping: pong
+     ELSE IF d.code = 0 THEN chan' = Take(d) /\ UNCHANGED decided      \* ACK / RST from the client
      ELSE /\ style \in Styles(d.ty)
           /\ (key \in DOMAIN decided => style = decided[key])
           /\ decided' = Put(decided, key, style)
@@ -127,6 +137,7 @@ ALL_STYLES == {"ack", "rst", "pig", "ack+sepcon", "sepcon", "ack+sepnon", "sepno
 \* one named action per disjunct, so that TLC's coverage report counts each of them
 ASend       == \E s \in 1..NSess, ty \in {CON, NON} : Send(s, ty)
 ARelease    == \E s \in 1..NSess : Release(s)
+APing       == \E s \in 1..NSess : Ping(s)
 ARetransmit == \E k \in DOMAIN st.fl : Retransmit(k)
 AGiveUp     == \E k \in DOMAIN st.fl : GiveUp(k)
 ANackCb     == \E o \in st.owed : NackCb(o)
@@ -139,7 +150,7 @@ ADup        == \E d \in BagToSet(chan) : Dup(d)
 APeerRx     == \E d \in BagToSet(chan), style \in ALL_STYLES : PeerRx(d, style)
 ATick       == Tick
 
-Next == \/ ASend \/ ARelease \/ ARetransmit \/ AGiveUp \/ ANackCb \/ ASendAck \/ ASendRst \/ ADeliverCb
+Next == \/ ASend \/ ARelease \/ APing \/ ARetransmit \/ AGiveUp \/ ANackCb \/ ASendAck \/ ASendRst \/ ADeliverCb
         \/ AClientRx \/ ALose \/ ADup \/ APeerRx \/ ATick
 
 Spec == Init /\ [][Next]_vars
